@@ -69,6 +69,7 @@ class Scheduler:
         self.aborted: str | None = None
         self.clock = 0  # logical time = number of scheduling decisions taken
         self.objects: list[Any] = []  # shim objects in creation order (state hashing)
+        self.put_log: list[tuple[Any, int]] = []
         self.states: set[int] = set()
         self.switches = 0
         self._by_ident: dict[int, LThread] = {}
@@ -366,6 +367,7 @@ class Scheduler:
 
             def put(self, item: Any, block=True, timeout=None) -> None:
                 sched.point(f"queue.put:{type(item).__name__}")
+                sched.put_log.append((item, sched.clock))  # logical time at which the producer handed the item over
                 self.items.append(item)
 
             put_nowait = put
